@@ -14,6 +14,10 @@ import (
 var c07ViaProto = "UDP"
 
 // c07Request builds a request whose top Via names a host/port different from the source.
+// c07Claimed is what a pre-filled received parameter says: a foreign address (spoofed) unless the harness sets it to the
+// sender's true address (a sender that knows its address and pre-fills received — correctly — and rport — wrongly).
+var c07Claimed = "192.0.2.99"
+
 func c07Request(L int, rportKind, recvKind int) (text, via0, via1 string) {
 	branch := ";branch=z9hG4bK" + rt.Str("br", "alnum", 1, L)
 	params := ""
@@ -25,9 +29,9 @@ func c07Request(L int, rportKind, recvKind int) (text, via0, via1 string) {
 	}
 	if recvKind == 1 {
 		if rt.Bool("received-before-rport") {
-			params = ";received=192.0.2.99" + params // spoofed
+			params = ";received=" + c07Claimed + params // spoofed
 		} else {
-			params += ";received=192.0.2.99"
+			params += ";received=" + c07Claimed
 		}
 	}
 	// the parameters may stand before or after the branch
@@ -92,6 +96,10 @@ func VC07_Stamp() {
 	srcIP := "10.0.2." + rt.Dec("octet", 2)
 	srcPortS := genPort()
 	srcPort, _ := strconv.Atoi(srcPortS)
+	c07Claimed = "192.0.2.99"
+	if recvKind == 1 && rt.Bool("claimed-received-is-the-true-source") {
+		c07Claimed = srcIP
+	}
 	text, via0, via1 := c07Request(L, rportKind, recvKind)
 	var conn *fakenet.TCPConn
 	ok := false
